@@ -140,6 +140,18 @@ namespace RecInt
         sub(a, b, c);
         return -a;
     }
+    template <size_t K, typename T>
+    inline __RECINT_IS_SIGNED(T, rint<K>) operator-(const rint<K>& b, const T& c) {
+        rint<K> a;
+        sub(a, b, c);
+        return a;
+    }
+    template <size_t K, typename T>
+    inline __RECINT_IS_SIGNED(T, rint<K>) operator-(const T& c, const rint<K>& b) {
+        rint<K> a;
+        sub(a, b, c);
+        return -a;
+    }
 }
 
 
